@@ -4,8 +4,9 @@ _COMMON = [
 ]
 SPEC = dict(
     harness=['h_tree.c'], cflags=['-DVF_MODE_ITER'],
-    configs=lambda tier: [dict(name='avl'), dict(name='rbt', hflags=['-DVF_TREE_RBT'])],
-    parallel_configs=2,
+    configs=lambda tier: [dict(name='avl'), dict(name='rbt', hflags=['-DVF_TREE_RBT'])] + ([dict(name='avl-unpacked', cflags=['-DA_SIZE_POINTER=1']), dict(name='rbt-unpacked', hflags=['-DVF_TREE_RBT'], cflags=['-DA_SIZE_POINTER=1'])]),
+    parallel_configs=4,
+    workers={'quick': 12, 'thorough': 16},
     level='exploration',
     rule='for every tree shape reachable through the library with <= N nodes (AVL N=15 quick/22 thorough; red-black N=12/17) and for random trees up '
          'to 4096 nodes: the six foreach macros (lower-case and upper-case forms) and the fortear macro are run and compared by node address with a recursive traversal over child links; next, prev, '
